@@ -337,6 +337,9 @@ class Function(object):
                 i.file = idd.get('file')
                 i.pred = idd.get('pred')
                 i.callee = idd.get('callee')
+                if i.callee and i.callee.startswith('llvm.mem'):
+                    # llvm.memcpy.p0i8.p0i8.i64 -> memcpy (same for memset/memmove): the libc name the source wrote
+                    i.callee = i.callee.split('.')[1]
                 i.calleev = V(idd['calleev'], self) if 'calleev' in idd else None
                 i.args = [V(o, self) for o in idd['args']] if 'args' in idd else None
                 i.argtys = idd.get('argtys')
